@@ -368,7 +368,7 @@ class DisjunctionMaxMatcher(UnionMatcher):
             return a
         elif a is not self.a or b is not self.b:
             # If one of the sub-matchers changed, return a new DisMax
-            return self.__class__(a, b)
+            return self.__class__(a, b, tiebreak=self.tiebreak)
         else:
             return self
 
